@@ -486,6 +486,7 @@ impl<'a> Gen<'a> {
         }
     }
 
+
     fn boundary_literal(&mut self) -> G {
         let opts: [&str; 24] = [
             "2147483647",
